@@ -31,7 +31,16 @@ constexpr bool can_scale_without_overflow(Magnitude<BPs...> m, Rep value) {
         (void)value;
         return true;
     } else {
-        return std::numeric_limits<Rep>::max() / get_value<Rep>(m) >= value;
+        // If the scale factor itself is too big for `Rep`, we must not ask for its value (that is a
+        // hard error, which would make merely *asking* about a conversion ill-formed): scaling by
+        // it overflows every nonzero value.
+        constexpr auto mag_value_result = detail::get_value_result<Rep>(Magnitude<BPs...>{});
+        static_assert(mag_value_result.outcome == detail::MagRepresentationOutcome::OK ||
+                          mag_value_result.outcome == detail::MagRepresentationOutcome::ERR_CANNOT_FIT,
+                      "Scale factor must be either representable in Rep, or too big for it");
+        return (mag_value_result.outcome == detail::MagRepresentationOutcome::OK)
+                   ? (std::numeric_limits<Rep>::max() / mag_value_result.value >= value)
+                   : (value == Rep{0});
     }
 }
 
